@@ -406,7 +406,8 @@ def strip_refs(e):
 
 
 NUMERIC_ADTS = ("dual::dual::Dual", "dual::dual::Dual2")
-ERASE_METHODS = {"clone", "view", "to_owned", "borrow", "as_ref", "to_vec", "into_owned", "view_mut", "cloned", "copied", "deref", "reborrow"}
+ERASE_METHODS = {"clone", "view", "to_owned", "borrow", "as_ref", "to_vec", "into_owned", "view_mut", "cloned", "copied", "deref", "reborrow", "as_slice", "as_mut_slice", "as_mut",
+                 "as_deref", "borrow_mut", "as_str"}
 F64_UNARY = {"exp": "exp", "ln": "ln", "log": "ln", "sqrt": "sqrt", "trunc": "trunc", "signum": "signum"}
 
 
@@ -1713,15 +1714,21 @@ class Ev:
                 finally:
                     self.loops.pop()
                 return Sym("forall" if m == "all" else "exists", vkey(recv.src), vkey(body))
-            if m == "fold" and len(args) == 2 and isinstance(args[1], Clo):
+            if m == "fold" and len(args) == 2 and (isinstance(args[1], Clo) or (isinstance(args[1], Sym) and args[1].tag[:1] == ("fn",))):
                 f = args[1]
-                env2 = dict(f.env)
                 accv = Poly.atom("acc") if isinstance(args[0], Poly) else (operand("acc", args[0].adt) if isinstance(args[0], Rec) and args[0].adt.startswith("dual::dual::Dual") else Sym("acc"))
-                self.bind(f.params[0], accv, env2)
-                self.bind(f.params[1], recv.fn(Poly.atom("q%d" % len(self.loops))), env2)
+                elv = recv.fn(Poly.atom("q%d" % len(self.loops)))
                 self.loops.append(("q", vkey(recv.src)))
                 try:
-                    body = self.collapse(self.eval(f.body, env2, depth))
+                    if isinstance(f, Clo):
+                        env2 = dict(f.env)
+                        self.bind(f.params[0], accv, env2)
+                        self.bind(f.params[1], elv, env2)
+                        body = self.collapse(self.eval(f.body, env2, depth))
+                    elif self.facts.fn(f.tag[1]) is not None:
+                        body = self.collapse(self.apply_fn(f.tag[1], [accv, elv], depth))        # `.fold(z, helper)` == `.fold(z, |a, x| helper(a, x))`
+                    else:
+                        body = self.collapse(self.overloaded({"callee": f.tag[1]}, [accv, elv], depth))     # a trait method item, e.g. <T as Add>::add
                 finally:
                     self.loops.pop()
                 src = vkey(recv.src)
@@ -1778,6 +1785,12 @@ class Ev:
                     env2 = dict(args[1].env)
                     self.bind(args[1].params[0], recv.tag[2], env2)
                     return self.collapse(self.eval(args[1].body, env2, depth))
+            if m in ("ok_or", "ok_or_else") and len(args) == 1 and recv.tag[1] in ("Some", "None"):
+                if recv.tag[1] == "Some" and len(recv.tag) == 3:
+                    return Sym("ctor", "Ok", recv.tag[2])
+                if recv.tag[1] == "None":
+                    err = self.collapse(self.eval(args[0].body, dict(args[0].env), depth)) if isinstance(args[0], Clo) else args[0]
+                    return Sym("ctor", "Err", err)
             if m == "is_some" and not args:
                 return Sym("bool", "true" if recv.tag[1] == "Some" else "false")
             if m in ("map", "is_some_and", "is_none_or", "and_then") and len(args) == 1 and isinstance(args[0], Clo) and recv.tag[1] in ("Some", "None"):
@@ -2122,6 +2135,8 @@ def cmp_sym(op, l, r, integer=False):
         lead = sorted(d.t.items(), key=lambda kv: repr(kv[0]))[0][1]
         if lead < 0:
             d = -d
+    if op == "Ne":
+        return Sym("not", Sym("cmp", "Eq", d.key()).key())          # one literal for `a == b` and `a != b`
     flip = {"Gt": "Lt", "Ge": "Le"}
     if op in flip:
         return Sym("cmp", flip[op], (-d).key())
